@@ -187,6 +187,59 @@ def judge_trace(res, fname, arg_types, ret, yld, desc, store=None):
     res.shape("trace|" + fname + "|" + str(ret is None) + str(yld is None) + "|" + ",".join(sorted(RT.shape(RT.to_rt(v)) for v in arg_types.values())))
 
 
+def hostile_history(res):
+    """Decodes that must fail, made BEFORE the round trips of this interpreter: names that are textual prefixes of the fixture
+    modules / classes / functions, and a module that becomes importable only after its first failed look-up.  Whatever the
+    decoder remembers about failures must not leak into later, valid look-ups."""
+    import importlib
+    import os
+    import sys
+
+    import monkeytype.encoding as enc
+    from monkeytype.exceptions import MonkeyTypeError
+
+    d = core.scratch("c08late")
+    late = "vflate_%d" % os.getpid()
+    probes = [("vf.fixtures.hie", "A"), ("vf.fixtures.h", "A"), ("vf.fixtures.func", "plain"), ("vf.fixtures", "hie"), ("vf.fixtures.hier", "Oute"),
+              ("vf.fixtures.hier", "Outer.Inn"), ("vf.fixtures.funcs", "K.met"), ("vf.fixtures.funcs", "K.Inner.Dee.meth"), ("builtin", "int"), ("typin", "List"),
+              (late, "Late"), ("collection", "defaultdict")]
+    for module, qual in probes:
+        res.count("hostile_lookups")
+        try:
+            enc.type_from_dict({"module": module, "qualname": qual})
+            res.violation("decode-of-missing-name-succeeds", f"type_from_dict({module}.{qual}) returned a type", {"module": module, "qualname": qual})
+        except MonkeyTypeError:
+            res.count("hostile_lookups_rejected")
+        except Exception as e:
+            res.violation(f"decode-of-missing-name-raises:{type(e).__name__}", f"{module}.{qual}: {e!r}", {"module": module, "qualname": qual})
+        try:
+            enc.CallTraceRow(module, qual, "{}", None, None).to_trace()
+        except MonkeyTypeError:
+            pass
+        except Exception as e:
+            res.violation(f"decode-of-missing-name-raises:{type(e).__name__}", f"row {module}:{qual}: {e!r}", {"module": module, "qualname": qual})
+    # the module of the failed look-up appears afterwards (a package installed / a file written while the process lives)
+    open(os.path.join(d, late + ".py"), "w").write("class Late:\n    pass\n\n\ndef late_fn(a):\n    return a\n")
+    sys.path.insert(0, d)
+    importlib.invalidate_caches()
+    try:
+        mod = importlib.import_module(late)
+        from monkeytype.tracing import CallTrace
+
+        T = enc.type_from_dict(enc.type_to_dict(mod.Late))
+        if T is not mod.Late:
+            res.violation("roundtrip-differs", f"class of a module that appeared after a failed look-up decodes to {T!r}", {"late": True})
+        tr = enc.CallTraceRow.from_trace(CallTrace(mod.late_fn, {"a": mod.Late}, mod.Late)).to_trace()
+        if tr.func is not mod.late_fn:
+            res.violation("trace-function-differs", "function of a module that appeared after a failed look-up", {"late": True})
+        res.count("late_module_roundtrips")
+    except Exception as e:
+        res.violation(f"decode-raises:{type(e).__name__}", f"module that appeared after a failed look-up: {e!r}", {"late": True})
+    finally:
+        sys.path.remove(d)
+        sys.modules.pop(late, None)
+
+
 def work(p):
     import monkeytype.typing as mt
     from monkeytype.db.sqlite import SQLiteStore
@@ -194,6 +247,7 @@ def work(p):
 
     rng = random.Random(p["seed"])
     res = core.Res()
+    hostile_history(res)
     pool = []
     for expr in p.get("exprs", ()):
         T = gt.ev(expr)
@@ -274,6 +328,8 @@ def run(ck):
         ck.counters["kind:" + kd] = 1 if kd in have else 0
         ck.need("kind:" + kd, 1, "generic kind of the quantifier never encoded")
     ck.need("roundtrips", 8000)
+    ck.need("hostile_lookups_rejected", 100)
+    ck.need("late_module_roundtrips", 10)
     ck.need("trace_roundtrips", 2000)
     ck.need("function_kinds", 18)
     ck.need("ret_yield_states", 9)
